@@ -24,6 +24,57 @@ def tok_levents(events):
     return t
 
 
+def tok_devents(events):
+    out = []
+    for e in events:
+        if e == "ul":
+            out.append([1])
+        elif "a" in e:
+            a = e["a"]
+            out.append([0] + vlib.tok_var(a["var"]) + [1 if a["value"] else 0, a["reason"]])
+        elif "uu" in e:
+            out.append([2, e["uu"]])
+        elif "dec" in e:
+            out.append([3, e["dec"]])
+        else:
+            out.append([4])
+    t = [len(out)]
+    for o in out:
+        t += o
+    return t
+
+
+def annotate_decides(recs):
+    """Adds r['decides'] = {n, ok}: every call of Solver::decide in the log picks the candidate and the clause the
+    decide model picks (coq/Cdcl/Decide.v, activity scores in binary32: coq/Float/Activity.v). Only for runs with the
+    default activity parameters."""
+    lines = []
+    for i, r in enumerate(recs):
+        d = r["obs"].get("dump")
+        if d is None or ss.outcome_kind(r["obs"]["outcome"]) not in ("sat", "unsat") or "/act=" in r.get("stream", ""):
+            continue
+        if not any(isinstance(e, dict) and "dec" in e for e in d["events"]):
+            continue
+        db = [len(d["clauses"])]
+        for c in d["clauses"]:
+            db += vlib.tok_clause(c)
+        lines.append(f"decides {i} " + vlib.toks(vlib.tok_universe(r["case"]["u"]), db, tok_devents(d["events"])))
+    out = vlib.oracle(lines)
+    for i, v in out.items():
+        r = recs[int(i)]
+        if v.startswith("error"):
+            r["decides"] = {"error": v}
+        else:
+            n, ok_ = v.split()
+            r["decides"] = {"n": int(n), "ok": ok_ == "1"}
+    return recs
+
+
+def ok_decides(r):
+    d = r.get("decides")
+    return d is None or ("error" not in d and d["ok"])
+
+
 def annotate(recs):
     lines = []
     for i, r in enumerate(recs):
